@@ -35,7 +35,8 @@ ARITH_CASTS = {'IntegralCast', 'FloatingToIntegral', 'IntegralToFloating', 'Floa
 TRANSPARENT = {'ExprWithCleanups', 'MaterializeTemporaryExpr', 'CXXBindTemporaryExpr', 'ConstantExpr',
                'SubstNonTypeTemplateParmExpr', 'FullExpr'}
 FOPS = {'+': 'NV_FADD', '-': 'NV_FSUB', '*': 'NV_FMUL', '/': 'NV_FDIV'}
-CAST_KINDS = {'ImplicitCastExpr', 'CXXStaticCastExpr', 'CStyleCastExpr', 'CXXFunctionalCastExpr', 'CXXConstCastExpr'}
+CAST_KINDS = {'ImplicitCastExpr', 'CXXStaticCastExpr', 'CStyleCastExpr', 'CXXFunctionalCastExpr', 'CXXConstCastExpr',
+              'CXXReinterpretCastExpr'}
 
 
 def qual(t):
@@ -404,14 +405,25 @@ class Printer:
                 return 'NULL'
             if ck == 'ToVoid':
                 return f'((void)({self.expr(inner[0])}))'
+            if ck == 'BitCast' and qual(n['type']).rstrip().endswith('*'):
+                # reinterpret_cast / implicit conversion between object pointer types (e.g. T* -> char*): explicit C cast
+                return f'(({self.ctype(n["type"])})({self.expr(inner[0])}))'
+            if ck == 'LValueBitCast':
+                # reinterpret_cast<const U&>(lvalue): the same storage read as a U
+                return f'(*({self.ctype(n["type"])}*)({self.addr(inner[0])}))'
             raise Unsupported(f'cast kind {ck}')
         if k == 'ParenExpr':
             return '(' + self.expr(inner[0]) + ')'
         if k == 'SubstNonTypeTemplateParmExpr':
             return self.expr(inner[-1])
-        if k == 'ConstantExpr' and str(n.get('value')) in ('true', 'false') and strip_cv(qual(n['type'])) == 'bool':
-            # a boolean constant expression (`if constexpr` condition) prints as the value clang evaluated it to
-            return '1' if str(n['value']) == 'true' else '0'
+        if k == 'ConstantExpr' and isinstance(n.get('value'), str):
+            # a constant expression that clang already evaluated (if constexpr conditions, template constants such as
+            # std::is_floating_point_v<T>): print the value instead of the (possibly unprintable) expression
+            q = strip_cv(qual(n['type']))
+            if q == 'bool' and n['value'] in ('true', 'false'):
+                return '1' if n['value'] == 'true' else '0'
+            if q in SCALARS and q not in ('double', 'float', 'long double', 'bool') and re.fullmatch(r'-?\d+', n['value']):
+                return f'(({SCALARS[q]})({n["value"]}))'
         if k in TRANSPARENT:
             return self.expr(inner[0])
         if k == 'IntegerLiteral':
